@@ -204,6 +204,21 @@ impl<Fut: Future> FuturesOrderedBounded<Fut> {
     }
 }
 
+#[cfg(futures_buffered_verif)]
+impl<Fut: Future> FuturesOrderedBounded<Fut> {
+    /// Start both position counters at `start`. Only meaningful on an empty collection.
+    pub fn verif_seed_indices(&mut self, start: usize) {
+        debug_assert!(self.is_empty());
+        self.next_incoming_index = Wrapping(start);
+        self.next_outgoing_index = Wrapping(start);
+    }
+
+    /// `(next_outgoing_index, next_incoming_index)`
+    pub fn verif_indices(&self) -> (usize, usize) {
+        (self.next_outgoing_index.0, self.next_incoming_index.0)
+    }
+}
+
 impl<Fut: Future> Stream for FuturesOrderedBounded<Fut> {
     type Item = Fut::Output;
 
